@@ -22,6 +22,7 @@ FIX = [  # (substring of commit subject, property, key at the time, what failed)
  ('integral-slice parsers', 'C15', 'integral-slice-empty', 'empty integer slice text "" did not parse back'),
  ('map parsing accepts', 'C15', 'map-empty-key', '"":"v" failed with unexpected colon'),
  ('parse.String returns', 'C16', 'panic:named-scalar-env', 'type Level uint8 via env panicked (top level) or was silently dropped (nested)'),
+ ('ReverseTranslate accepts a pointer', 'C20', 'crash:transform.(*Transformer).ReverseTranslate', 'an inner source or watcher (e.g. a Blank) handing a POINTER to the translated struct through a transforming source panicked (slice bounds out of range)'),
  ('a wrapped watching source', 'C20', 'wrapped-watcher-update-not-reversed', 'updates through NewTransformingSource reached the monitor in the mangled type'),
  ('recognizes initialisms that have', 'C19', 'goident-mismatch:initialism=HTTPS', 'HTTPS -> [http s], UID -> [ui d]'),
  ('splits a trailing run', 'C19', 'goident-mismatch:trailing-run-UTF8', 'IDXMLUTF8 -> [idxmlutf8]'),
